@@ -96,6 +96,15 @@ pub fn adversarial() -> Vec<(String, Tree)> {
             .collect();
         res.push((format!("matrix_{}x{}", k, k), Tree::P(0, "root".to_string(), acts)));
     }
+    // one player-one infoset whose nodes sit below one, two and three chance nodes
+    {
+        use crate::tree::{c, p, t};
+        let x = |a: f64, b: f64| p(0, "x", vec![("a", t(a)), ("b", t(b))]);
+        res.push((
+            "coin_tree".into(),
+            c(None, vec![(1.0, x(1.0, -1.0)), (1.0, c(None, vec![(1.0, c(None, vec![(1.0, x(-2.0, 1.0)), (1.0, x(0.5, 0.0))])), (1.0, c(None, vec![(1.0, x(-1.0, 2.0)), (1.0, t(0.0))]))]))]),
+        ));
+    }
     // the envelope scales with D: tiny and huge payoff ranges
     let base: Vec<(String, Tree)> = res.iter().filter(|(n, _)| ["matching_pennies", "dominated_action", "kuhn", "wide_shared_3", "deep_chain_4", "rare_chance_1e2"].contains(&n.as_str())).cloned().collect();
     for (name, tree) in base {
@@ -175,8 +184,10 @@ pub fn run(ctx: &Ctx) -> i32 {
             Err(_) => return,
         };
         for preset in [0usize, 3] {
-            for threads in [2usize, 3, 5] {
-                for &iters in tb {
+            let wide = name == "coin_tree" || name.starts_with("matrix_");
+            let thread_counts: &[usize] = if wide { &[2, 3, 4, 6, 8] } else { &[2, 3, 5] };
+            for &threads in thread_counts {
+                for &iters in tb.iter().chain(if wide { [3000u64].iter() } else { [].iter() }) {
                     let ratios = check_state(ctx, tree, &game, preset, iters, threads);
                     note(ratios, format!("{} {} T={} threads={}", name, PRESET_NAMES[preset], iters, threads));
                     ctx.count("real_pool_runs", 1);
